@@ -49,6 +49,13 @@ def shapes():
                        Stmt("out1", ex=["in"], oo=["dd1"], dyndep="dd1", extra_outs=["out1.imp"]),
                        Stmt("out2", ex=["in"], oo=["dd2"], dyndep="dd2", extra_outs=["out2.imp"])]),
     ]))
+    # one scan statement writes the dyndep files of two statements (cleaning by target in any order: what the first target's
+    # cleaning removes must not hide what the second target's dyndep file says)
+    S.append(("one_scan_two_dyndep", [
+        Variant("v0", [Stmt(["dd1", "dd2"], ex=["dd1.in", "dd2.in"], copy=True),
+                       Stmt("out1", ex=["in"], oo=["dd1"], dyndep="dd1", extra_outs=["out1.imp"]),
+                       Stmt("out2", ex=["in"], oo=["dd2"], dyndep="dd2", extra_outs=["out2.imp"])]),
+    ]))
     # a generated header becomes a checked-in one: its statement leaves the manifest, the file stays and is still
     # what the object's recorded dependencies name
     for kind, kw in (("gcc", {"deps": "gcc"}), ("depfile", {"depfile": True})):
@@ -167,12 +174,14 @@ def clean_scenarios(tier="quick"):
             rules = sorted(set(v0.rule_name(i) for i, st in enumerate(v0.stmts) if not st.phony)) + ["phony"]
             for r in rules:
                 tools.append(tool_op("clean-rules", [r], dry=dry, verbose=dry))
-        for a, b in itertools.combinations(outs[:4], 2):
+        for a, b in itertools.permutations(outs[:5] if name == "one_scan_two_dyndep" else outs[:4], 2):
+            if name != "one_scan_two_dyndep" and a > b:
+                continue
             tools.append(tool_op("clean-targets", [a, b]))
         for t in tools:
             t["no_expand"] = True
         files = {"s2": "s2-v0\n"} if name == "generator_phony_alias" else {}
-        if name == "two_dyndep":
+        if name in ("two_dyndep", "one_scan_two_dyndep"):
             files = {"dd1.in": "ninja_dyndep_version = 1\nbuild out1 | out1.imp: dyndep\n",
                      "dd2.in": "ninja_dyndep_version = 1\nbuild out2 | out2.imp: dyndep\n"}
         if name == "dyndep_claims_phony_name":
@@ -239,7 +248,7 @@ def regen_scenario(tier):
 def readonly_scenarios(tier="quick"):
     T = [regen_scenario(tier)]
     for name, variants in shapes() + builddir_shapes():
-        if name == "two_dyndep" or name.startswith("dyndep_claims"):
+        if name in ("two_dyndep", "one_scan_two_dyndep") or name.startswith("dyndep_claims"):
             continue   # C19 is stated for graphs without pending dyndep files
         variants = variants[:1]
         ops, build = _common_ops(variants, damaged_depfile=True)
